@@ -174,6 +174,35 @@ def counters(ctx):
                 ob.refute("%s-step" % kind, "%s counter is updated to %s, expected +1" % (kind, key(l.value)), l.loc)
         if len(clrs) != 2 or any(v.guard_keys(c, False) != {clear} for c in clrs):
             ob.refute("%s-clear" % kind, "%s counter / flag are not both reset under clear alone: %s" % (kind, [str(c) for c in clrs]), None)
+    # the granularity-error counter of the write half: counts under the writer's flag; a handshake of the writer's registered output side is another pipeline stage
+    try:
+        vw = elab(ctx, ECC, "LiteDRAMNativePortECC", overrides={"port_from.data_width": Const(64), "port_to.data_width": Const(104)},
+                  kwargs={"burst_cycles": Const(8), "with_error_injection": Const(False), "with_we_error_detection": Const(True)})
+    except Exception:
+        vw = None
+    if vw is not None:
+        wr_i = [o for o in vw.d.instances.values() if o.cls == "LiteDRAMNativePortECCW" and "." not in o.path]
+        wincs = [l for l in vw.leaves if l.kind == "assign" and l.inst == "" and isinstance(l.value, Op) and lin_eq(l.value, Op("+", (l.target, Const(1))))
+                 and wr_i and any(key(wr_i[0].attrs.get("we_error", Sym("?"))) in k_ for k_ in vw.guard_keys(l, False))]
+        ob.instance("granularity-error counter increments", [sorted(vw.guard_keys(l, False)) for l in wincs])
+        for l in wincs:
+            wsrc = key(wr_i[0].attrs["we_error"])
+            wrap_ = [w_ for w_ in (wr_i[0].meta.get("wrappers", []) or []) if w_[0] == "BufferizeEndpoints"]
+            buffered_ = {str(a_) for w_ in wrap_ for a_ in w_[1]}
+            for k_ in sorted(vw.guard_keys(l, False)):
+                b_ = k_.lstrip("~")
+                if b_ == wsrc or key(l.target) in b_ or "clear" in b_ or "wr_stb" in b_:
+                    continue
+                if b_.rsplit(".", 1)[-1] in ("valid", "ready") and b_.startswith(wr_i[0].path + ".") :
+                    side_ = b_[len(wr_i[0].path) + 1:].split(".", 1)[0]
+                    if any(side_ in x_ for x_ in buffered_):
+                        ob.refute("we-errors-masked", "the granularity-error counter additionally requires %s, a handshake of the writer's %s side, which lies behind an output register "
+                                  "(BufferizeEndpoints) while the flag is computed from the word at its input: a partial write that moves into that register while the memory side "
+                                  "is not ready is never counted" % (k_, side_), l.loc)
+                    else:
+                        ob.unknown("the granularity-error counter additionally requires %s: whether every partial write is still counted is not decided" % k_)
+                else:
+                    ob.unknown("the granularity-error counter additionally requires %s: whether every partial write is still counted is not decided" % k_)
     rd_ = [o for o in v.d.instances.values() if o.cls == "LiteDRAMNativePortECCR" and "." not in o.path]
     en = v.drivers(rd_[0].path + ".enable") if rd_ else []
     if not en or key(en[0].value) != "enable.storage":
